@@ -8,7 +8,7 @@
 // body is in this file is itself verified here; the others are listed as `external_body` assumptions.
 use vstd::prelude::*;
 use vstd::std_specs::cmp::*;
-use std::cmp;
+use std::cmp::{self, Ordering};
 
 verus! {
 
@@ -142,6 +142,63 @@ impl Prioritize {
     //@spec         // everything the stream held is back in the pool or assigned onwards: nothing leaks
     //@spec         final(self).flow.a() + final(stream).send_flow.a() <= old(self).flow.a() + old(stream).send_flow.a(),
     //@spec         final(self).flow.a() >= 0 && final(stream).send_flow.a() >= 0,
+    //@end
+
+    //@extract src/proto/streams/prioritize.rs Prioritize::reclaim_reserved_capacity
+    //@subst stream: &mut store::Ptr=>stream: &mut Stream
+    //@subst_re stream\s*\.send_flow\s*\.claim_capacity\(reserved\)\s*\.expect\("window size should be greater than reserved"\);=>let _r = stream.send_flow.claim_capacity(reserved); assert(_r.is_ok());
+    //@spec     requires
+    //@spec         wf_send(*old(stream)) && wf_pool(*old(self)),
+    //@spec         old(self).flow.a() + old(stream).send_flow.a() <= 0x7fff_ffff,
+    //@spec     ensures
+    //@spec         final(stream).send_flow.w() == old(stream).send_flow.w() && final(self).flow.w() == old(self).flow.w(),
+    //@spec         final(self).flow.a() + final(stream).send_flow.a() <= old(self).flow.a() + old(stream).send_flow.a(),
+    //@spec         final(self).flow.a() >= 0,
+    //@spec         // capacity needed for data that is already buffered is kept
+    //@spec         final(stream).send_flow.a() >= (if old(stream).send_flow.a() <= old(stream).buffered_send_data { old(stream).send_flow.a() } else { old(stream).buffered_send_data as int }),
+    //@end
+
+    //@extract src/proto/streams/prioritize.rs Prioritize::reserve_capacity
+    //@subst stream: &mut store::Ptr=>stream: &mut Stream
+    //@subst let _res = stream.send_flow.claim_capacity(diff);=>let _res = stream.send_flow.claim_capacity(diff); assert(_res.is_ok());
+    //@subst cmp::min(capacity, WindowSize::MAX as usize)=>min_usize(capacity, WindowSize::MAX as usize)
+    //@spec     requires
+    //@spec         wf_send(*old(stream)) && wf_pool(*old(self)),
+    //@spec         old(self).flow.a() + old(stream).send_flow.a() <= 0x7fff_ffff,
+    //@spec         old(stream).buffered_send_data <= 0x7fff_ffff,
+    //@spec         !(old(stream).is_pending_open && old(stream).is_pending_push),
+    //@spec     ensures
+    //@spec         final(stream).send_flow.w() == old(stream).send_flow.w() && final(self).flow.w() == old(self).flow.w(),
+    //@spec         // nothing is created: pool + this stream never grows (what is missing went to other streams)
+    //@spec         final(self).flow.a() + final(stream).send_flow.a() <= old(self).flow.a() + old(stream).send_flow.a(),
+    //@spec         final(self).flow.a() >= 0 && final(stream).send_flow.a() >= 0,
+    //@spec         final(stream).buffered_send_data == old(stream).buffered_send_data,
+    //@spec         // the recorded request: n + buffered (capped), except that raising on a closed send half is a no-op
+    //@spec         capacity + old(stream).buffered_send_data < old(stream).requested_send_capacity ==> final(stream).requested_send_capacity == capacity + old(stream).buffered_send_data,
+    //@spec         capacity + old(stream).buffered_send_data > old(stream).requested_send_capacity && old(stream).state.send_closed() ==> *final(stream) == *old(stream) && final(self).flow == old(self).flow,
+    //@spec         capacity + old(stream).buffered_send_data > old(stream).requested_send_capacity && !old(stream).state.send_closed() ==>
+    //@spec             final(stream).requested_send_capacity == (if capacity + old(stream).buffered_send_data > u32::MAX { u32::MAX as int } else { capacity + old(stream).buffered_send_data }),
+    //@spec         capacity + old(stream).buffered_send_data == old(stream).requested_send_capacity ==> *final(stream) == *old(stream) && final(self).flow == old(self).flow,
+    //@end
+
+    //@extract src/proto/streams/prioritize.rs Prioritize::recv_stream_window_update
+    //@subst stream: &mut store::Ptr=>stream: &mut Stream
+    //@ret r
+    //@spec     requires
+    //@spec         sz_ok(inc) && inc >= 1,
+    //@spec         wf_send(*old(stream)) && wf_pool(*old(self)),
+    //@spec         !(old(stream).is_pending_open && old(stream).is_pending_push),
+    //@spec     ensures
+    //@spec         final(self).flow.w() == old(self).flow.w(),
+    //@spec         final(self).flow.a() + final(stream).send_flow.a() == old(self).flow.a() + old(stream).send_flow.a(),
+    //@spec         // a stream that can never send again ignores the update
+    //@spec         old(stream).state.send_closed() && old(stream).buffered_send_data == 0 ==> r.is_ok() && *final(stream) == *old(stream),
+    //@spec         !(old(stream).state.send_closed() && old(stream).buffered_send_data == 0) ==> (
+    //@spec             if old(stream).send_flow.w() + inc > 0x7fff_ffff {
+    //@spec                 r == Err::<(), Reason>(Reason::FLOW_CONTROL_ERROR) && *final(stream) == *old(stream)
+    //@spec             } else {
+    //@spec                 r.is_ok() && final(stream).send_flow.w() == old(stream).send_flow.w() + inc && wf_send(*final(stream))
+    //@spec             }),
     //@end
 }
 
